@@ -6,7 +6,7 @@ Open Scope string_scope.
 Definition erec := (key * Z * outcome)%type.                (* an execution: key, instant, what it did *)
 Definition stored_form (o : outcome) : val := match o with OVal v => v | OExc e => raise_marker e end.
 Definition accepted (c : condk) (o : outcome) : bool :=
-  match eval_cond c o, o with CRTrue, OVal _ => true | CRExc, OExc _ => true | _, _ => false end.
+  match eval_cond c o, o with CRTrue, OVal v => negb (is_excobj v) | CRExc, OExc _ => true | _, _ => false end.
 (* scripted values never look like the RaiseException marker *)
 Definition clean (o : outcome) : Prop := match o with OVal (VOpq n) => (n < 1000)%Z | _ => True end.
 
@@ -48,13 +48,14 @@ Proof.
     destruct (HI k d0 sv0 Em) as (t & o' & Hin & -> & Hacc & ->). exists t, o'. auto.
   - split; [|split; [intros _; split; [reflexivity|split; [reflexivity|]]|discriminate]].
     + unfold accepted. destruct (eval_cond c o) eqn:Ec, o as [v|e]; try (intros k' d sv H; destruct (HI k' d sv H) as (t & o' & Hin & R); exists t, o'; split; [right; exact Hin|exact R]).
-      * intros k' d sv H. rewrite (s_write_absent m now k v ttl E) in H.
+      * intros k' d sv H. destruct (is_excobj v) eqn:Ex; [destruct (HI k' d sv H) as (t & o' & Hin & R); exists t, o'; split; [right; exact Hin|exact R]|].
+        rewrite (s_write_absent m now k v ttl E) in H.
         destruct (String.eqb_spec k' k) as [->|]; [|destruct (HI k' d sv H) as (t & o' & Hin & R); exists t, o'; split; [right; exact Hin|exact R]].
-        injection H as <- <-. exists now, (OVal v). split; [left; reflexivity|]. unfold accepted. rewrite Ec. auto.
+        injection H as <- <-. exists now, (OVal v). split; [left; reflexivity|]. unfold accepted. rewrite Ec, Ex. auto.
       * intros k' d sv H. rewrite (s_write_absent m now k (raise_marker e) ttl E) in H.
         destruct (String.eqb_spec k' k) as [->|]; [|destruct (HI k' d sv H) as (t & o' & Hin & R); exists t, o'; split; [right; exact Hin|exact R]].
         injection H as <- <-. exists now, (OExc e). split; [left; reflexivity|]. unfold accepted. rewrite Ec. auto.
-    + unfold accepted. destruct (eval_cond c o), o; try reflexivity; discriminate.
+    + unfold accepted. destruct (eval_cond c o), o as [v|e]; try reflexivity; try discriminate. destruct (is_excobj v); [reflexivity|discriminate].
 Qed.
 
 (* whole histories: run with the execution log *)
